@@ -124,6 +124,13 @@ var propSpecs = map[string]*PropSpec{
 		TrustedBase: []string{"sort.Slice orders the slice by the comparison it is given; sortCandidates' comparison (endpoint length, endpoint, any-method last, method) is a strict total order on routes because endpoint and method together are the key of the route table", "meta-lemma: a deterministic scan over a canonically ordered list of a set is a function of the set", "the per-route matching block reads only the route, the method and the path (structural obligation)"},
 		Extra:       c32Extra,
 	},
+	"C09": {
+		Patterns:    []string{"./..."},
+		Level:       "other",
+		Explanation: "every go statement of the module is found on every run and must be of a known kind (program, once, stopped, oneshot, bounded, startup, cli); for once / stopped / oneshot the code around the statement is checked for the pattern that bounds the goroutine's life (sync.Once.Do or a package-level guard set in the same block; a deferred close, at the top level of the starter, of a channel the goroutine waits on; a single final send on a channel of capacity >= 1)",
+		TrustedBase: []string{"a goroutine that waits in a select on a closed channel returns; a send on a channel with free capacity does not block", "per-site arguments for the kinds bounded, startup and cli (listed in govc/c09.go)", "no thread semantics: nothing here is a statement about schedules"},
+		Extra:       c09Extra,
+	},
 	"C27": {
 		Patterns: []string{"./..."},
 		Level:    "proof",
